@@ -387,3 +387,25 @@ Theorem rendered_time_from_clock_refuted cfg amb m :
   exists fmt clk_worker clk_caller,
     rendered_from TSClock fmt clk_worker 0 [copy_msg_with cfg amb m] <> rendered_from TSClock fmt clk_caller 0 [m].
 Proof. exists (fun b => b), (fun _ => [1]), (fun _ => [0]). cbn. discriminate. Qed.
+
+(* 7. the thread that executes a step: with an unconditional move of the worker, every step that appends to the sink log
+   (every handler/sink invocation) is executed by the logger thread, whether or not the application object existed when
+   moveToOwnThread() was called; a producer step never is.  A move that is conditional on the application object is refuted. *)
+Lemma sink_step_is_worker_step cp s a s' : step cp s a = Some s' -> slog s' <> slog s -> is_producer_action a = false.
+Proof.
+  intros H N. destruct (is_producer_action a) eqn:E; [|reflexivity].
+  exfalso. apply N. eapply producer_never_runs_sink; eauto.
+Qed.
+Theorem sink_steps_on_logger_thread cp s a s' app :
+  step cp s a = Some s' -> slog s' <> slog s -> exec_thread WMAlways app a = TOwn.
+Proof. intros H N. unfold exec_thread. rewrite (sink_step_is_worker_step cp s a s' H N). reflexivity. Qed.
+Theorem producer_steps_on_caller_thread w app a : is_producer_action a = true -> exec_thread w app a = TCaller.
+Proof. intros H. unfold exec_thread. rewrite H. reflexivity. Qed.
+Theorem conditional_move_refuted : exists cp s s', step cp s ADone = Some s' /\ slog s' <> slog s /\ exec_thread WMIfApp false ADone = TCaller.
+Proof.
+  exists (fun m => m).
+  pose (x := (0, 0, {| m_type := 0; m_text := []; m_file := None; m_line := []; m_func := None; m_cat := None; m_time := [];
+                        m_steady := []; m_tid := []; m_fmt := None; m_attrs := [] |}) : item).
+  exists {| prod := prod s0; mtx := None; queue := []; pending := 1; inflight := Some x; slog := []; posted := [x]; tr := [] |}.
+  eexists. split; [reflexivity|]. split; [discriminate|reflexivity].
+Qed.
